@@ -1,6 +1,7 @@
 (* C03, the window between a chunk iterator's io.EOF and the chunk selector's look at the chunks (model.Paging.eof_step):
-   when the flush that lands in the window extends the chunk the reader stands at the end of, the position after the
-   window is the one before it - the first record that was not read - and the next Get delivers the first flushed record. *)
+   The code (reresolve): whatever is flushed in the window - into the reader's chunk, into new chunks, both - the selector
+   answers with the position that was not read (`eof_reresolved`). The code before that repair (stepping to the next chunk
+   id, with the restore): the same holds when the flush stays in the reader's chunk (`eof_window_kept`). *)
 From LR Require Import lib.Base model.Paging proofs.PagingP.
 From Coq Require Import Sorting.Sorted.
 
@@ -41,7 +42,7 @@ Section Eof.
     split; [lia|]. split; [congruence|]. apply (find_chunk_id _ _ _ Hf).
   Qed.
 
-  Lemma eof_step_kept : eof_step true j' it = (mkJit (j_cid it) p None (j_bad it), false).
+  Lemma eof_step_kept : eof_step false true j' it = (mkJit (j_cid it) p None (j_bad it), false).
   Proof.
     destruct eof_at_end as [Hp [Hidx Hid]].
     assert (sorted j') as Hs' by (apply jappend_sorted; assumption).
@@ -59,7 +60,7 @@ Section Eof.
   Qed.
 
   Lemma eof_window_kept :
-    let it2 := fst (eof_step true j' it) in
+    let it2 := fst (eof_step false true j' it) in
     jit_pos it2 = jit_pos it /\ wfj j' it2 /\ fl j' it2 = fl j it /\ fl j it = length (recs j) /\
     forall it3 r, jit_get j' it2 = (it3, r) -> r = nth_error (recs j') (fl j it).
   Proof.
@@ -83,3 +84,48 @@ Section Eof.
       destruct (jit_get_spec j' _ _ _ Hs' Hw2 Hg) as [_ [_ [Hr _]]]. rewrite Hfl in Hr. exact Hr.
   Qed.
 End Eof.
+
+(* ================================================================== the repaired stepping: any flush *)
+Definition japps (j : journal) (apps : list (N * list event)) : journal :=
+  fold_left (fun a x => jappend a (fst x) (snd x)) apps j.
+
+Lemma japps_keep : forall apps j pos c, sorted j -> spos j pos -> find_chunk j (fst pos) = Some c ->
+  sorted (japps j apps) /\ spos (japps j apps) pos /\ flat (japps j apps) pos = flat j pos /\
+  exists c', find_chunk (japps j apps) (fst pos) = Some c'.
+Proof.
+  unfold japps. induction apps as [|a apps IH]; intros j pos c Hs Hsp Hf; cbn [fold_left].
+  - split; [assumption|]. split; [assumption|]. split; [reflexivity|]. exists c. assumption.
+  - destruct (spos_append j (fst a) (snd a) pos Hs Hsp) as [Hsp1 Hfl1].
+    assert (j <> []) as Hne by (intros ->; discriminate).
+    assert (forall l, last_chunk j = Some l -> (fst pos <= c_id l)%N) as Hl.
+    { intros l El. destruct Hsp as [_ H]. rewrite El in H. exact H. }
+    pose proof (jappend_find j (fst a) (snd a) (fst pos) Hs Hl Hne) as Hfi. rewrite Hf in Hfi. destruct Hfi as [c1 [Hc1 _]].
+    destruct (IH (jappend j (fst a) (snd a)) pos c1 (jappend_sorted _ _ _ Hs) Hsp1 Hc1) as [A [B [C D]]].
+    split; [exact A|]. split; [exact B|]. split; [congruence|exact D].
+Qed.
+
+Lemma eof_reresolved j it p c apps restore : sorted j -> wfj j it -> j_ci it = Some p -> find_chunk j (j_cid it) = Some c ->
+  let j' := japps j apps in
+  let it2 := fst (eof_step true restore j' it) in
+  flat j' (jit_pos it2) = fl j it /\ wfj j' it2 /\ snd (eof_step true restore j' it) = true.
+Proof.
+  intros Hs Hw Hci Hf. cbn zeta.
+  assert (j_ci it <> None) as Hopen by congruence.
+  pose proof (spos_of_open j it Hs Hw Hopen) as Hsp.
+  destruct (japps_keep apps j (jit_pos it) c Hs Hsp Hf) as [Hs' [Hsp' [Hfl [c' Hc']]]]. cbn [jit_pos fst] in Hc'.
+  unfold eof_step, ensure. cbn [j_ci j_cid j_idx j_bad].
+  pose proof (chunk_ge_spec (japps j apps) Hs' (j_cid it)) as G.
+  destruct (chunk_ge (japps j apps) (j_cid it)) as [ck|].
+  - inversion G as [|c0 Hf0 Hc0 Hbe Hn|c0 Hf0 Hc0 Hbe Hb2 Hn]; subst c0; [|congruence].
+    assert (c_id ck = j_cid it) as Hid.
+    { destruct (N.eq_dec (c_id ck) (j_cid it)) as [E|E]; [exact E|]. rewrite (Hn E) in Hc'. discriminate. }
+    destruct (N.ltb_spec (c_id ck) (j_cid it)); [lia|].
+    destruct (N.ltb_spec (j_cid it) (c_id ck)); [lia|]. cbn [fst snd].
+    rewrite Hid in Hf0. rewrite Hf0 in Hc'. injection Hc' as <-.
+    split; [|split; [|reflexivity]].
+    + unfold fl. rewrite <- Hfl. unfold flat, jit_pos. cbn [j_cid j_idx fst snd]. rewrite Hid, Hf0.
+      rewrite Nnat.N2Nat.inj_min, cnt_len. f_equal. lia.
+    + destruct Hw as [Hb _]. split; [exact Hb|]. cbn [j_ci j_cid j_idx]. split; [reflexivity|].
+      exists ck. rewrite Hid. split; [assumption|lia].
+  - inversion G as [E| |]. rewrite E in Hc'. discriminate.
+Qed.
